@@ -3,6 +3,7 @@ CONSTANTS
   Threads <- T2
   Keys <- K3
   DirectKeys = {}
+  MaxRepeats = 2
   DepsOpts <- AllGraphs
   LoadsOpts <- W2_2
   SharedOpts = {TRUE, FALSE}
